@@ -7,6 +7,8 @@ HOOKS = {
     "add_only": True,
 }
 ENGINES = [
+    {"name": "fault", "path": "/verif/mc/props/C08.py", "serves_properties": ["C08"],
+     "kind_free_text": "fault-point enumerator: public-API fault menu x position and sys.settrace call-level injection, snapshot oracle"},
     {"name": "hist", "path": "/verif/mc/props", "serves_properties": ["C09", "C11"],
      "kind_free_text": "explicit-state BFS over the real API: states rebuilt by history replay on fresh "
                        "objects, canonical form by names, invariant + reference model after every transition"},
@@ -32,5 +34,14 @@ CHECKS["C09"] = dict(
          "padding arithmetic is enumerated on the whole box L,n in 1..24, start in auto,-60..60; path-length abstraction to fixpoint (L<=12).",
     note="Bounded by depth (2 exact; 3 on a reduced alphabet in thorough), by path lengths 1..4 initial and fixed generic numeric values; "
          "trusted: mc/oracles/pathmodel.py (Appendix A.1) as the reading of the documented semantics.")
+CHECKS["C08"] = dict(
+    engine="fault", level="fault_enumeration", design_ref="DESIGN.md §4 C08, §2.3",
+    technique="exhaustive fault-point enumeration (public-API faults x position, plus every Python-level call beneath getBH_level2 raising) with full before/after snapshots on the real code",
+    text="Every configuration (source lists up to length 2/3 over 7 source kinds x per-object path lengths x 7 observer kinds x 4 entry "
+         "points) is crossed with 21 fault kinds at every position they can strike; thorough and quick additionally make the k-th "
+         "Python-level call beneath getBH_level2 raise, for every k. Snapshot of all involved objects, caller arrays and global "
+         "defaults must be byte-identical afterwards and a repeated call must agree.",
+    note="Faults are not injected into the statements of the restoring `finally` block; generator frames are not fault points; "
+         "style compared via style.as_dict(). Trusted: snapshot code in mc/props/C08.py.")
 _todo = "check not built yet in this session (planned, see DESIGN.md §4); nothing is claimed for it"
 NOT_APPLICABLE = [{"property_id": f"C{i:02d}", "reason": _todo} for i in range(1, 21) if f"C{i:02d}" not in CHECKS]
